@@ -479,6 +479,10 @@ def check_skeleton(P, ctx):
         a_try = ir.top_nocast(c_try[2][0])
         same_env = a_try[0] == 'un' and a_try[1] == '&' and ir.top_nocast(a_try[2]) == ir.top_nocast(c_sj[2][0])
         ctx.check(same_env, rule, wname + ':same-env', s, 'the jmp_buf registered with exception_try is the one setjmp fills')
+        envd = [d for st in ir.stmts(f['body']) if st['k'] == 'decl' for d in st['decls'] if ('local', d['name'], d['id']) == ir.top_nocast(c_sj[2][0])]
+        ctx.check(len(envd) == 1 and not envd[0]['static'], rule, wname + ':env-per-activation', s,
+                  'the jump buffer is an automatic variable of the try block (one per activation): a shared (static/global) buffer is overwritten '
+                  'when the same block is entered again while still active, so a re-raise jumps to the wrong or a dead frame')
         ctx.check(g.must_pass(sj['id'], [tr['id']]), rule, wname + ':try-before-setjmp', s,
                   'exception_try dominates setjmp')
         # body runs only on the direct (0) return of setjmp, fail only on the longjmp return
@@ -526,7 +530,7 @@ def check_skeleton(P, ctx):
         tp = ir.as_tuple(c[2][2])
         ok = tp is not None and len(tp) == 1 and tp[0] == ('param', 'x', 0) and ir.top_nocast(c[2][1])[0] == 'str'
     ctx.check(ok, rule, 'w_throw:expansion', site(f), 'throw(E, fmt, args...) calls exception_throw(E, fmt, tuple(args...)) and does not return')
-    ctx.floor(rule, 17)
+    ctx.floor(rule, 19)
 
 
 def check_functions(P, ctx, summ):
